@@ -70,6 +70,9 @@ def gen_runs(rng, n_random):
     runs.append(({0: [("inc", 5), ("def", 1)]}, [0]))
     runs.append(({0: [("def", 1)]}, [3]))
     runs.append(({0: [("inc", 1), ("inc", 1), ("inc", 1)], 1: [("def", 4), ("def", 4)]}, [0, 1]))
+    # an empty file reached twice (its stored result is an empty list, not "in progress"), alone and in a diamond
+    runs.append(({0: [("inc", 1), ("inc", 2)], 1: [("inc", 3)], 2: [("inc", 3)], 3: []}, [0]))
+    runs.append(({0: [], 1: [("inc", 0), ("inc", 0)]}, [0, 1, 0]))
     chain = {i: [("def", 100 + i)] + ([("inc", i + 1)] if i < 11 else []) for i in range(12)}
     runs.append((chain, [0]))
     runs.append((chain, [6, 0]))
